@@ -159,8 +159,10 @@ func (r *yieldRewriter) rewriteStmts(
 	}
 
 	if isLast {
-		if children.kind == kindDelay {
-			r.generateLastNormalIfNecessary(children)
+		// notice: following may differ from children, e.g.,
+		// a for / switch stmt whose init contains yield switches to the bind callback
+		if following.kind == kindDelay {
+			r.generateLastNormalIfNecessary(following)
 		}
 	} else {
 		following = r.combineIfNecessary(following)
